@@ -356,13 +356,17 @@ def _run_prefix(binary, lines, timeout):
 
 def run_sharded(binary, lines, timeout=1200, shards=None):
     shards = shards or max(1, min(NPROC, len(lines) // 200 + 1))
-    size = (len(lines) + shards - 1) // shards if lines else 1
-    parts = [lines[i:i + size] for i in range(0, len(lines), size)]
-    with ThreadPoolExecutor(max_workers=shards) as ex:
+    # round-robin sharding: generators emit expensive case families in contiguous blocks, which
+    # contiguous chunks would hand to one or two workers
+    parts = [lines[i::shards] for i in range(shards)]
+    parts = [p for p in parts if p]
+    with ThreadPoolExecutor(max_workers=max(1, len(parts))) as ex:
         outs = list(ex.map(lambda p: _run_lines(binary, p, timeout), parts))
-    clean, raw = [], []
-    for c, r in outs:
-        clean.extend(c); raw.extend(r)
+    clean, raw = [None] * len(lines), [None] * len(lines)
+    for k, (c, r) in enumerate(outs):
+        for j, (ci, ri) in enumerate(zip(c, r)):
+            clean[k + j * len(parts)] = ci
+            raw[k + j * len(parts)] = ri
     # a child that died for a reason unrelated to the case (machine load, a binary replaced under
     # it) must not be taken for an abort of the library: re-run such cases once, alone (a bounded
     # number of them); lines skipped after repeated failures get one more batch run
